@@ -1048,7 +1048,7 @@ static int s_dconvert(ctx_t *c, int a, int b)
 
 static const char *const dfile_tab[] = {
     "c12-a.s2p", "c12-b.ts", "c12-c.npd", "c12-d.s3p", "c12-e.npd",
-    "c12-f.s1p",
+    "c12-f.s1p", "c12-g.npd",
 };
 
 static int s_dsave(ctx_t *c, int a, int b)
@@ -1064,6 +1064,36 @@ static int s_dcksave(ctx_t *c, int a, int b)
 static int s_dload(ctx_t *c, int a, int b)
 {
     return RC(vnadata_load(c->vd[a], scratch(dfile_tab[b])));
+}
+
+/*
+ * A hand-written NPD file whose data lines are made as long as the loader's
+ * line buffer (81 bytes at first, then doubled), shifted by `a' - 1 bytes: the
+ * byte that makes the buffer grow is then, in turn, the last digit of a
+ * field, the terminator of a field and the first digit of the next one.
+ * Written by the driver itself (no library allocation).
+ */
+static int s_dwrite_long(ctx_t *c, int a, int b)
+{
+    FILE *fp = fopen(scratch(dfile_tab[b]), "w");
+    (void)c;
+    if (fp == NULL)
+	return 2;
+    fprintf(fp, "#NPD\n#:version 1.0\n#:ports 1\n#:frequencies 2\n"
+	    "#:parameters Sri\n#:z0 50.0 +0.0j\n");
+    for (int line = 0; line < 2; ++line) {
+	/* 12 + 1 + n1 + 1 + n2 characters and 3 terminators in the buffer */
+	int total = (line ? 162 : 81) + a - 1;
+	int n1 = (total - 12 - 3) / 2, n2 = total - 12 - 3 - n1;
+	fprintf(fp, "%d.000000e+09 +0.", line + 1);
+	for (int i = 0; i < n1 - 3; ++i)
+	    fputc('0' + (i + 5) % 10, fp);
+	fprintf(fp, " -0.");
+	for (int i = 0; i < n2 - 3; ++i)
+	    fputc('0' + (i + 2) % 10, fp);
+	fputc('\n', fp);
+    }
+    return fclose(fp) == 0 ? 0 : 2;
 }
 
 /* ------------------------------------------------------------------ */
@@ -1880,6 +1910,9 @@ static void data_hists(void)
 	{ 2, 0, 3, 0, ".npd PRC..VSWR" },
 	{ 4, 1, 1, 1, ".npd 3x3 per-frequency z0 Sri,Zma" },
 	{ 3, 1, 8, 0, ".s3p Sri" },
+	/* formats without parameter letter are resolved by the save */
+	{ 2, 0, 5, 0, ".npd ri (letterless)" },
+	{ 0, 0, 5, 0, ".s2p ri (letterless)" },
     };
     for (size_t i = 0; i < sizeof(sl) / sizeof(sl[0]); ++i) {
 	h = new_hist('D', "vnadata: save and load %s", sl[i].what);
@@ -1900,6 +1933,18 @@ static void data_hists(void)
 	ADD(h, s_dalloc, 1, 0, "vnadata_alloc");
 	ADD(h, s_dload, 1, sl[i].file, "vnadata_load");
 	ADD(h, s_dload, 0, sl[i].file, "vnadata_load");	/* into used object */
+    }
+}
+
+static void long_line_hists(void)
+{
+    for (int a = 0; a < 3; ++a) {
+	hist_t *h = new_hist('D', "vnadata: load of an NPD file whose lines "
+		"fill the line buffer to %d byte(s) of its size", a - 1);
+	ADD(h, s_dalloc, 0, 0, "vnadata_alloc");
+	ADDN(h, s_dwrite_long, a, 6, "(write file)");
+	ADD(h, s_dload, 0, 6, "vnadata_load");
+	ADD(h, s_dload, 0, 6, "vnadata_load");
     }
 }
 
@@ -1942,6 +1987,7 @@ static void build_histories(void)
     reg_hists();
     prop_hists();
     data_hists();
+    long_line_hists();
 }
 
 /* ------------------------------------------------------------------ */
